@@ -209,6 +209,8 @@ def stepLine (st : DState) (line : String) : DState × String :=
       let h := st.routes.dispatch req
       (st, s!"h={showOptNat h} resp={hx (st.routes.handle req handlerResp).serialize}")
     | _, _, _ => (st, "bad-op")
+  | ["conn", "new", "default"] =>
+    ({ st with conn := Conn.new MAX_PAYLOAD_SIZE, conn00 := Conn00.new P0 MAX_PAYLOAD_SIZE, offer := [] }, "ok")
   | ["conn", "new", l] =>
     match l.toNat? with
     | some l => ({ st with conn := Conn.new l, conn00 := Conn00.new P0 l, offer := [] }, "ok")
